@@ -220,6 +220,10 @@ func (e *Engine) Cancel(inserted, cached bool) {
 	} else {
 		e.line.Set(*e.compLine...)
 		e.cursor.Set(e.compCursor.Pos())
+
+		// The candidate has replaced the prefix: another one inserted
+		// from the same list (accept-and-menu-complete) goes after it.
+		e.prefix = ""
 	}
 }
 
